@@ -64,6 +64,7 @@ char *cfg_yylval = NULL;
 extern int  cfg_yylex(cfg_t *cfg);
 extern void cfg_yylex_destroy(void);
 extern int  cfg_lexer_include(cfg_t *cfg, const char *fname);
+extern void cfg_lexer_include_unwind(cfg_t *cfg);
 extern void cfg_scan_fp_begin(FILE *fp);
 extern void cfg_scan_fp_end(void);
 
@@ -1730,6 +1731,8 @@ DLLIMPORT int cfg_parse_fp(cfg_t *cfg, FILE *fp)
 	cfg->line = 1;
 	cfg_scan_fp_begin(fp);
 	ret = cfg_parse_internal(cfg, 0, -1, NULL);
+	if (ret == STATE_ERROR)
+		cfg_lexer_include_unwind(cfg);	/* error inside an included file */
 	cfg_scan_fp_end();
 	if (ret == STATE_ERROR)
 		return CFG_PARSE_ERROR;
